@@ -120,11 +120,32 @@ def _delete_pending(manner):
             "jobs": [{"kind": 0, "grouped": False, "forker": False, "state": "delete-pending", "mops": [{"at": 30, "op": "start", "yield": True}, {"at": 400, "op": "delete", "yield": False}]}]}
 
 
+def _pending_long_restart():
+    """a graceful restart with a long grace period is pending when a graceful quit with a short one is requested: the quit lasts the remainder
+    of the pending grace plus its own, and the whole group is gone afterwards"""
+    return {"steps": [{"at_ms": 30, "acts": [{"job": 0, "op": "create", "script": CHILD[2][1] + ",fork_ignorer=1", "grouped": True}, {"job": 0, "op": "start"}]},
+                      {"at_ms": 300, "acts": [{"job": 0, "op": "restart_with_signal", "sig": "Terminate", "grace_ms": 1700}]},
+                      {"at_ms": 400, "acts": [], "quit": {"manner": "graceful", "sig": "Terminate", "grace_ms": 100}}],
+            "wait_ms": 3500, "settle_ms": 200, "tq": 400, "manner": "graceful", "qsig": "Terminate", "qgrace": 100, "same_action": False,
+            "jobs": [{"kind": 2, "grouped": True, "forker": True, "state": "mid-restart",
+                      "mops": [{"at": 30, "op": "start", "yield": True}, {"at": 300, "op": "restart_with_signal", "sig": "Terminate", "grace": 1700, "yield": True}]}]}
+
+
+def _two_threads():
+    """two jobs created in two actions, the second from another OS thread, a clone of the first handle kept by the application"""
+    return {"steps": [{"at_ms": 30, "acts": [{"job": 0, "op": "create", "script": CHILD[0][1], "grouped": False}, {"job": 0, "op": "start"}, {"job": 0, "op": "clone_keep"}]},
+                      {"at_ms": 120, "acts": [{"job": 1, "op": "create", "script": CHILD[0][1], "grouped": False, "thread": True}, {"job": 1, "op": "start"}]},
+                      {"at_ms": 400, "acts": [], "quit": {"manner": "graceful", "sig": "Terminate", "grace_ms": 200}}],
+            "wait_ms": 2500, "settle_ms": 200, "tq": 400, "manner": "graceful", "qsig": "Terminate", "qgrace": 200, "same_action": False,
+            "jobs": [{"kind": 0, "grouped": False, "forker": False, "state": "cloned", "mops": [{"at": 30, "op": "start", "yield": True}]},
+                     {"kind": 0, "grouped": False, "forker": False, "state": "running", "mops": [{"at": 120, "op": "start", "yield": True}]}]}
+
+
 SCEN_CORPUS = [
     # several jobs whose commands all ignore the signal: they are stopped concurrently, one grace period in total
     _three_ignoring(400),
     # a job created and started in the action that quits, its handle cloned and kept elsewhere
-    _same_action_cloned("graceful"), _same_action_cloned("abort"), _session_abort(), _delete_pending("graceful"), _delete_pending("abort"),
+    _same_action_cloned("graceful"), _same_action_cloned("abort"), _session_abort(), _delete_pending("graceful"), _delete_pending("abort"), _pending_long_restart(), _two_threads(),
     # known finding: grouped command, leader exits on the signal, another member ignores it
     {"steps": [{"at_ms": 30, "acts": [{"job": 0, "op": "create", "script": CHILD[0][1] + ",fork_ignorer=1", "grouped": True}, {"job": 0, "op": "start"}]},
                {"at_ms": 400, "acts": [], "quit": {"manner": "graceful", "sig": "Terminate", "grace_ms": 250}}],
